@@ -49,7 +49,8 @@ def _cases(draw, tier):
     order = draw(st.permutations(list(range(len(ks)))))
     # batch: 0 = one sample per write() call (drawn order), 1 = ONE write() call with all (ascending) samples,
     # 2 = two calls (first half, second half), 3 = ONE call with the samples in the drawn order
-    return dict(p, ks=ks, order=list(order), batch=batch, dirmode=draw(st.sampled_from([None, None, None, 0o555, 0o311, 0o311])))
+    return dict(p, ks=ks, order=list(order), batch=batch, dirmode=draw(st.sampled_from([None, None, None, 0o555, 0o311, 0o311])),
+                twin=draw(st.integers(0, 2)) == 0)
 
 
 def strategy(tier):
@@ -85,6 +86,14 @@ def run_case(case):
         md = os.path.join(top, "md")
         os.makedirs(md)
         w = M.open_writer(md, S, C, n, d, prefix, case.get("ptype", "int"))
+        w2 = md2 = None
+        if case.get("twin"):
+            # a second metadata channel with the same parameters, alive in the same process and written alternately with
+            # the first (chA/metadata + chB/metadata is the usual layout): writer objects share nothing
+            res.cls("second-metadata-writer-in-process")
+            md2 = os.path.join(top, "other", "metadata")
+            os.makedirs(md2)
+            w2 = M.open_writer(md2, S, C, n, d, prefix, case.get("ptype", "int"))
         expected = set()
         batch = case.get("batch", 0)
         if batch == 0 or len(ks) == 1:
@@ -101,21 +110,31 @@ def run_case(case):
             subs = {((ks[i] * d) // n) // S for i in range(len(ks))}
             if len(subs) > 1:
                 res.cls("batch-write-spanning-subdirectories")
-        for call in calls:
+        for cn_, call in enumerate(calls):
             res.evaluations += len(call)
             try:
-                if len(call) == 1:
-                    i = call[0]
-                    w.write(ks[i], {"v": i, "name": "s%d" % i})
-                else:
-                    import numpy as np
+                for wr_ in ([w, w2] if cn_ % 2 else [w2, w]):
+                    if wr_ is None:
+                        continue
+                    if len(call) == 1:
+                        i = call[0]
+                        wr_.write(ks[i], {"v": i, "name": "s%d" % i})
+                    else:
+                        import numpy as np
 
-                    w.write([ks[i] for i in call], {"v": np.array(call), "name": ["s%d" % i for i in call]})
+                        wr_.write([ks[i] for i in call], {"v": np.array(call), "name": ["s%d" % i for i in call]})
             except Exception as e:
                 res.fail("write-exception", "k=%r %s: %s" % ([ks[i] for i in call], type(e).__name__, e))
                 return res
             for i in call:
                 expected.add(M.exact_path(ks[i], n, d, C, S, prefix))
+            if md2 is not None:
+                present2 = set(f for f in M.find_files(md2) if f != "dmd_properties.h5")
+                exp2 = expected | {M.exact_path(ks[i], n, d, C, S, prefix) for i in call}
+                if present2 != exp2:
+                    res.fail("writer-placement:second-channel", "k=%r: the other channel holds %s, expected %s" % (
+                        [ks[i] for i in call], sorted(present2 ^ exp2)[:3], sorted(exp2)[:3]))
+                    return res
             present = set(f for f in M.find_files(md) if f != "dmd_properties.h5")
             if present != expected:
                 k = ks[call[-1]]
